@@ -954,3 +954,160 @@ class I2cInst(PInst):
             if cmd[2] or rng.random() < 0.3:
                 poke, pd, pa = 1, rng.getrandbits(8), rng.randint(0, 1)
         return tuple(cmd) + (rng.randint(0, 1), self.load, poke, pd, pa)
+
+
+# ---------------------------------------------------------------------------------------------------------
+# I2CMaster: Wishbone registers + machine + pad stage (open-drain pads simulated by a special override)
+
+class OpenDrainSim:
+    """Simulation stand-in for `Tristate` on an open-drain line: pad = oe ? o : ext, i = pad; `ext` (reset 1) is
+    what the rest of the bus puts on the line and is driven by the harness."""
+    ext = {}
+
+    @staticmethod
+    def lower(dr):
+        m = Module()
+        e = Signal(reset=1)
+        OpenDrainSim.ext[id(dr.target)] = e
+        from migen import Mux
+        m.comb += dr.target.eq(Mux(dr.oe, dr.o, e))
+        if dr.i is not None:
+            m.comb += dr.i.eq(dr.target)
+        return m
+
+
+I2C_W, I2C_R, I2C_S, I2C_P = 1 << 10, 1 << 9, 1 << 11, 1 << 12
+
+
+class I2cPadMonitor:
+    """I2C bus legality at the pads (independent of the model): with `prev`/`cur` the pad values of two consecutive
+    cycles, SDA may change only while SCL is low in both, except for a START (SDA falling, SCL high) or STOP (SDA
+    rising, SCL high) that software requested (start/stop bit written to the transfer register since the core was last
+    idle).  Only transitions caused by the master are judged: cycles in which the external drive of the harness changed
+    are skipped.  Liveness: idle returns within 21 clk2x periods after the last command write."""
+
+    def __init__(self):
+        self.prev = None
+        self.req_start = self.req_stop = False
+        self.since = None
+        self.load = 0
+
+    def observe(self, letter, outs):
+        cyc, stb, we, adr0, dat, escl, esda = letter
+        scl, sda, back, datr, idle = outs
+        msg = None
+        p = self.prev
+        if p is not None:
+            pscl, psda, pescl, pesda = p
+            if psda != sda and pesda == esda and pescl == escl and (pscl or scl):
+                if pscl and scl and sda == 0 and self.req_start:
+                    pass
+                elif pscl and scl and sda == 1 and self.req_stop:
+                    pass
+                else:
+                    msg = "SDA %d->%d while SCL %d->%d (no %s requested)" % (
+                        psda, sda, pscl, scl, "start" if sda == 0 else "stop")
+        self.prev = (scl, sda, escl, esda)
+        if cyc and stb and we and not back:
+            if adr0:
+                self.load = dat & 0xfffff
+            else:
+                if dat & I2C_S:
+                    self.req_start = True
+                if dat & I2C_P:
+                    self.req_stop = True
+                if dat & (I2C_S | I2C_P | I2C_W | I2C_R):
+                    self.since = 0
+        elif idle and self.since is not None and self.since > 1:
+            self.since = None
+            self.req_start = self.req_stop = False
+        elif self.since is not None:
+            self.since += 1
+            if msg is None and self.since > 22 * (self.load + 1) + 4:
+                msg = "not idle %d cycles after the last command write (load=%d)" % (self.since, self.load)
+        return msg
+
+
+class I2cMasterInst(PInst):
+    """letter = (bus.cyc, bus.stb, bus.we, bus.adr[0], bus.dat_w, ext_scl, ext_sda)
+       outputs = (pads.scl, pads.sda, bus.ack, bus.dat_r, i2c.idle)
+    `overlap`: probability that the software model writes a command without waiting for idle."""
+
+    def __init__(self, load=3, overlap=0.0, stretch=0.0, alphabet=None, tag=""):
+        from migen.fhdl.specials import Tristate
+        from litex.soc.cores.i2c import I2CMaster
+        pads = Record([("scl", 1), ("sda", 1)])
+        core = I2CMaster(pads)
+        self.core, self.pads = core, pads
+        self.name = "I2CMaster(load=%d%s%s)%s" % (load, ",overlapping writes" if overlap else "",
+                                                  ",clock stretching" if stretch else "", tag)
+        self.module = core
+        self.lean_open = "i2cmaster"
+        OpenDrainSim.ext = {}
+        self.netlist = Netlist(core, special_overrides={Tristate: OpenDrainSim})
+        self.escl, self.esda = OpenDrainSim.ext[id(pads.scl)], OpenDrainSim.ext[id(pads.sda)]
+        b = core.bus
+        self.inputs = None
+        self.outputs = None
+        self.qual = [None] * 5
+        self.alphabet = alphabet
+        self.load, self.overlap, self.stretch = load, overlap, stretch
+        self.monitor = I2cPadMonitor
+        self._bus = b
+
+    def apply(self, letter):
+        n, b = self.netlist, self._bus
+        cyc, stb, we, adr0, dat, escl, esda = letter
+        n.set(b.cyc, cyc); n.set(b.stb, stb); n.set(b.we, we); n.set(b.adr, adr0); n.set(b.dat_w, dat)
+        n.set(self.escl, escl); n.set(self.esda, esda)
+        n.settle()
+        self._idle = n.getu(self.core.i2c.idle)
+
+    def sample(self):
+        n = self.netlist
+        return [n.getu(self.pads.scl), n.getu(self.pads.sda), n.getu(self._bus.ack), n.getu(self._bus.dat_r),
+                n.getu(self.core.i2c.idle)]
+
+    def nontrivial(self, letter, outs):
+        return bool((letter[0] and letter[1]) or not outs[4])
+
+    def idle_letter(self, last):
+        return (0, 0, 0, 0, 0, 1, 1)
+
+    def gen(self, rng, t):
+        if t == 0:
+            self._q = [(1, self.load)]            # software: program the divider first
+            self._idle = 1
+            self._wait = 0
+            self._hold = None
+        escl = 0 if (self.stretch and rng.random() < self.stretch) else 1
+        esda = rng.randint(0, 1) if rng.random() < 0.5 else 1
+        if self._hold is not None:                # second cycle of a classic Wishbone write (ack cycle)
+            l = self._hold
+            self._hold = None
+            return l[:5] + (escl, esda)
+        if self._wait > 0:
+            self._wait -= 1
+            return (0, 0, 0, 0, 0, escl, esda)
+        if not self._q:
+            r = rng.random()
+            if r < 0.5:
+                byte = rng.getrandbits(8)
+                self._q = [(0, I2C_S), (0, I2C_W | byte), (0, I2C_W | rng.getrandbits(8)), (0, I2C_P)]
+            elif r < 0.8:
+                self._q = [(0, I2C_S), (0, I2C_W | rng.getrandbits(8)), (0, I2C_S), (0, I2C_W | 1 | rng.getrandbits(8)),
+                           (0, I2C_R | (rng.randint(0, 1) << 8)), (0, I2C_R), (0, I2C_P)]
+            elif r < 0.9:
+                self._q = [(0, rng.choice([I2C_P, I2C_S, I2C_R, I2C_W | 0xa5, I2C_S | I2C_W | 0x3c, I2C_W | I2C_P]))]
+            else:
+                self._q = [(1, self.load)]
+        ready = self._idle or rng.random() < self.overlap
+        if ready and rng.random() < 0.6:
+            adr0, dat = self._q.pop(0)
+            l = (1, 1, 1, adr0, dat, escl, esda)
+            self._hold = l
+            self._wait = rng.choice([0, 0, 1, 3])
+            return l
+        if rng.random() < 0.1:                   # a polling read
+            return (1, 1, 0, rng.randint(0, 1), 0, escl, esda)
+        return (0, 0, 0, 0, 0, escl, esda)
